@@ -59,8 +59,11 @@ TEXT = {
          "families); on the code, forked paired replay with byte-level comparison of status, headers, body and client-state events.", "DESIGN.md 5 C16"),
  'C17': ("Every step of every replayed/random scenario is scanned for every plaintext secret known to the harness in all stored fields "
          "and log lines (clause noPlaintextStoredOrLogged); mail recipients are compared with the owner of the mailed token.", "DESIGN.md 5 C17"),
- 'C18': ("Failure injected at every backend call of requests inside scripted and random scenarios; each faulted step judged by TLC against "
-         "noPanic, noFakeSuccess (fault-free spec step as reference), noSessionOnUnsavedConsumption, onlyInvalidates.", "DESIGN.md 5 C18"),
+ 'C18': ("The specification models every backend call site of every flow (call protocol conformance is checked on every fault-free step) and what "
+         "the code does when that call fails; TLC checks noPanic, noFakeSuccess, noSessionOnUnsavedConsumption, onlyInvalidates, consumedStaysConsumed, "
+         "nothingUnissuedBecomesLive on every transition of the fault families (each call index x error kind x error handler x response mode). On the "
+         "code a failure is injected at every backend call of requests inside TLC-generated, scripted and random scenarios and each faulted step is "
+         "judged by TLC against the same clauses.", "DESIGN.md 5 C18"),
  'C20': ("Independence of clients on disjoint accounts as a TLC invariant over request-atomic steps; concurrent scripted clients on one "
          "instance of the shipped default components under the Go race detector, transcripts compared with solo runs.", "DESIGN.md 5 C20"),
 }
